@@ -121,6 +121,8 @@ static unsigned wf_list(struct wf *w, hwloc_obj_t parent, const char *lname, hwl
     if (c->sibling_rank != n) WFAIL(w, "list.sibling_rank", "%s child %s of %s: sibling_rank %u at position %u", lname, oname(c, a, sizeof a), oname(parent, b, sizeof b), c->sibling_rank, n);
     if (c->prev_sibling != prev) WFAIL(w, "list.prev_sibling", "%s child %u of %s: prev_sibling mismatch", lname, n, oname(parent, a, sizeof a));
     if (array && n < arity && array[n] != c) WFAIL(w, "list.children_array", "children[%u] of %s is not the %u-th sibling", n, oname(parent, a, sizeof a), n);
+    if (prev && prev->depth == c->depth && prev->logical_index >= c->logical_index)
+      WFAIL(w, "list.level_order", "%s children %s and %s of %s are siblings in this order but have logical_index %u >= %u in their common level", lname, oname(prev, a, sizeof a), hwloc_obj_type_string(c->type), oname(parent, b, sizeof b), prev->logical_index, c->logical_index);
     if (kind == TK_MISC ? c->type != HWLOC_OBJ_MISC : tk_kind(c->type) != kind)
       WFAIL(w, "list.kind", "%s list of %s contains %s", lname, oname(parent, a, sizeof a), oname(c, b, sizeof b));
   }
